@@ -22,12 +22,16 @@
    [fx] selects the index arithmetic of the sendmmsg chunk loop of uv__udp_sendmsgv:
    [false] = as written in the tree (the index is advanced by the prepared count and
    again by the sent count), [true] = advanced by the sent count only.
-   [sendmsgv_fixed] says which of the two the tree has. *)
+   [sendmsgv_fixed] says which of the two the tree has.
+
+   At the end of the file: the two monitors (decidable predicates on traces) that the
+   theorems of Proofs/UdpProofs.v are about - [mon_step] for the send side, [bmon_step]
+   for the buffers of the receive side. *)
 From UV Require Import Lib.Base.
 
 Local Open Scope Z_scope.
 
-Definition sendmsgv_fixed : bool := false.
+Definition sendmsgv_fixed : bool := true.
 
 (* errno values (Linux) and their uv codes *)
 Definition EINTR : Z := 4.
